@@ -175,7 +175,7 @@ package actionlint
 //@ func (*parser).parseMatrixCombinations
 //@   at_call [C13 C08] (*parser).parseMapping: !caseSensitive
 //@ func (*parser).parseRawYAMLValue
-//@   at_call [C13 C08] (*parser).parseMapping: !caseSensitive
+//@   at_call [C13 C08 C19] (*parser).parseMapping: !caseSensitive
 //@ func (*parser).parseStrategy
 //@   at_call [C13 C08] (*parser).parseSectionMapping: caseSensitive
 //@ func (*parser).parseContainer
